@@ -242,7 +242,7 @@ class CallMixin:
         for name, clause in c.requires:
             g = self.spec_eval(clause, cur, cf, c.name + ":" + name)
             cur.env = saved_env
-            self.oblige(cur, g, "call-pre", "%s:%s@%s" % (c.name.split(".")[-1], name, getattr(node, "lineno", "?")), node, fr)
+            self.oblige(cur, g, "call-pre", "%s:%s" % (getattr(node, "_ordinal", c.name.split(".")[-1]), name), node, fr)
             cur.env = dict(env)
         # 2. exceptional exits declared by the contract
         for exc, cond, mode in c.raises:
@@ -266,7 +266,7 @@ class CallMixin:
             mcaller = self.spec_eval_val(c.decreases, fr.entry, self.spec_frame(fr))
             cur.env = saved_env
             self.oblige(cur, zand(to_z3(mcallee, "int") < to_z3(mcaller, "int"), to_z3(mcaller, "int") >= 0),
-                        "call-variant", "%s:decreases@%s" % (c.name.split(".")[-1], getattr(node, "lineno", "?")), node, fr)
+                        "call-variant", "%s:decreases" % getattr(node, "_ordinal", c.name.split(".")[-1]), node, fr)
             cur.env = dict(env)
         composed = []
         for m in c.modifies:
